@@ -17,7 +17,7 @@ NORETURN = "NORETURN"
 
 
 def ev(I, kind, fn, node, info, st):
-    I.events.append((kind, fn, node, info, st, tuple((f.name for f in I.stack))))
+    I.events.append((kind, fn, node, info, st, tuple((f.name for f in I.stack)), tuple(I.callsites)))
 
 
 def fs(*a):
